@@ -45,6 +45,10 @@ def runHandler (kind : String) (req : Request) : HandlerResult :=
     .response ⟨http11, 200, [], strBytes ("id=" ++ (kind.drop 1).toString)⟩
   else if kind == "e" then .response ⟨http11, 200, [], req.content.getD []⟩
   else if kind == "m" then .response ⟨http11, 200, [], []⟩
+  else if kind.startsWith "z" then
+    -- a status that usually has no content, answered WITH content
+    let code := (kind.drop 1).toString
+    .response ⟨http11, code.toNat?.getD 200, [], strBytes ("z" ++ code)⟩
   else if kind.startsWith "h" then
     -- handlers that set headers of their own (`o`/`m`/`h`: one of the three CORS headers each, `x`: a custom one and Server)
     let which := (kind.drop 1).toString
